@@ -30,6 +30,9 @@ type verifSimConfig struct {
 	Channels         int
 	RetainedCommands int
 	PageBytes        int
+	// BatchItems, when > 0, is RuntimeConfig.BatchItems (also the largest
+	// proposal the owner accepts); 0 keeps the production default.
+	BatchItems       int
 	Pebble           bool
 	PebbleDir        string
 	// Timing: when false the harness owns trailing replication (huge flush
@@ -154,6 +157,9 @@ func (s *verifSim) startNode(n *verifSimNode) {
 		MaxVoters: s.cfg.N, MaxRetainedCommands: s.cfg.RetainedCommands, RecoveryPageBytes: s.cfg.PageBytes,
 		ExchangeTimeout: 5 * time.Second, LocalTimeout: 5 * time.Second, RecoveryTimeout: 8 * time.Second, CloseTimeout: 10 * time.Second,
 		LocalWorkers: 2, PeerWorkers: 8, PeerTargetFlight: 4, RepairWorkers: 2,
+	}
+	if s.cfg.BatchItems > 0 {
+		cfg.BatchItems = s.cfg.BatchItems
 	}
 	if s.cfg.Timing {
 		cfg.ReplicaHedgeDelay = 2 * time.Millisecond
